@@ -82,15 +82,18 @@ def fault_list(case):
             n = c["content"]["len"]
             out += [(i, {"kind": "missing"}), (i, {"kind": "lstat", "errno": errno.EACCES}), (i, {"kind": "lstat", "errno": errno.EIO}),
                     (i, {"kind": "open", "errno": errno.EACCES}), (i, {"kind": "open", "errno": errno.EIO}), (i, {"kind": "arcname_rejected"}),
-                    (i, {"kind": "lstat", "errno": 0, "exc": "ValueError"}), (i, {"kind": "open", "errno": 0, "exc": "ValueError"})]
+                    (i, {"kind": "lstat", "errno": 0, "exc": "ValueError"}), (i, {"kind": "open", "errno": 0, "exc": "ValueError"}),
+                    # a source that is no regular file, directory or link (a FIFO), and a name that cannot be stored
+                    (i, {"kind": "special_file"}), (i, {"kind": "arcname_rejected", "name": "bad${SURR}name"})]
             for k in sorted({0, 1, B - 1, B, B + 1, n}):
                 if 0 <= k <= n:
                     out.append((i, {"kind": "read", "after": k}))
         elif c["op"] == "writestr":
-            out += [(i, {"kind": "name_rejected", "name": "../evil"}), (i, {"kind": "name_rejected", "name": "/abs/name"}), (i, {"kind": "name_rejected", "name": "a/../../b"})]
+            out += [(i, {"kind": "name_rejected", "name": "../evil"}), (i, {"kind": "name_rejected", "name": "/abs/name"}), (i, {"kind": "name_rejected", "name": "a/../../b"}),
+                    (i, {"kind": "name_rejected", "name": "un${SURR}storable"})]
         elif c["op"] == "writef":
             n = c["content"]["len"]
-            out += [(i, {"kind": "name_rejected", "name": "../evil"}), (i, {"kind": "name_rejected", "name": "/abs"})]
+            out += [(i, {"kind": "name_rejected", "name": "../evil"}), (i, {"kind": "name_rejected", "name": "/abs"}), (i, {"kind": "name_rejected", "name": "x/${SURR}"})]
             for k in sorted({0, 1, B - 1, B, B + 1, n}):
                 if 0 <= k <= n:
                     out.append((i, {"kind": "read", "after": k}))
@@ -115,7 +118,7 @@ def _one_run(case, fi, fault, res):
     src = os.path.join(driver.worker_scratch(), "c15src")
     shutil.rmtree(src, ignore_errors=True)
     os.makedirs(src)
-    pre_consumption = fault["kind"] in ("missing", "lstat", "open", "arcname_rejected", "name_rejected")
+    pre_consumption = fault["kind"] in ("missing", "lstat", "open", "arcname_rejected", "name_rejected", "special_file")
     cls = {"fault": fault["kind"] + ("-" + fault["exc"] if fault.get("exc") else ""), "op": case["calls"][fi]["op"], "close": case["close"], "append": case["base"] is not None}
     cls.update(case_class(case))
     cls["dereference"] = bool(case.get("dereference"))
@@ -295,6 +298,8 @@ def _expected_exception(fault, py7zr):
         return ValueError
     if k in ("lstat", "open", "read"):
         return OSError
+    if k == "special_file":
+        return ValueError
     if k == "name_rejected":
         return ValueError
     if k == "arcname_rejected":
@@ -315,14 +320,14 @@ def _do_call(z, c, i, src, inject, failed_paths):
         data = gen.materialize(c["content"])
         name = c["name"]
         if inject is not None:
-            name = inject["name"]
+            name = inject["name"].replace("${SURR}", "\udc80")
         z.writestr(data, name)
         return [(name, data, "file")], []
     if c["op"] == "writef":
         data = gen.materialize(c["content"])
         name = c["name"]
         if inject is not None and inject["kind"] == "name_rejected":
-            name = inject["name"]
+            name = inject["name"].replace("${SURR}", "\udc80")
         if inject is not None and inject["kind"] == "read":
             bio = FaultBio(data, after=inject["after"])
         elif c.get("bio") == "buffered":
@@ -334,7 +339,9 @@ def _do_call(z, c, i, src, inject, failed_paths):
     if c["op"] == "write":
         data = gen.materialize(c["content"])
         p = os.path.join(src, "f%d" % i)
-        if not (inject is not None and inject["kind"] == "missing"):
+        if inject is not None and inject["kind"] == "special_file":
+            os.mkfifo(p)
+        elif not (inject is not None and inject["kind"] == "missing"):
             with open(p, "wb") as f:
                 f.write(data)
             os.utime(p, ns=(c["mtime_ns"], c["mtime_ns"]))
@@ -348,7 +355,7 @@ def _do_call(z, c, i, src, inject, failed_paths):
             elif inject["kind"] == "read":
                 PLAN.specs[p] = {"read_after": inject["after"]}
             elif inject["kind"] == "arcname_rejected":
-                name = "c:c:/still/absolute"
+                name = inject.get("name", "c:c:/still/absolute").replace("${SURR}", "\udc80")
                 failed_paths.pop()
         z.write(FaultPath(p), name)
         return [(name, data, "file")], []
